@@ -4,7 +4,7 @@
    flight, any enabled one may advance; update_document compares document versions and keeps base_dict).
    `lastword w u` is what the client shows for u (the most recent publishDiagnostics, by provenance),
    `expected w u` what the property demands, `pubval w u` what doc_state would publish now. *)
-Require Import Base Server ServerProofs ServerSeq ServerConc ServerClose ServerVer C09Batch C09BatchProofs C09Seq C09SeqProofs C09DictLock Tables_c09handlers C09Handlers C09Race C09RaceProofs C09RaceFamA C09RaceFamB C09RaceAll C09RaceGen.
+Require Import Base Server ServerProofs ServerSeq ServerConc ServerClose ServerVer C09Batch C09BatchProofs C09Seq C09SeqProofs C09DictLock Tables_c09handlers C09Handlers C09Race C09RaceProofs C09RaceFamA C09RaceFamB C09RaceAll C09RaceGen C09RaceDict C09RaceOnlyIf C09RaceDictEq.
 
 (* ================================================================================================
    What does NOT hold (each with a concrete schedule on the faithful model; replayed on the real
@@ -829,10 +829,12 @@ Check C09_race_flags_exact_partial :
   forall cd, lookup u (w_open (y_world y)) = Some cd -> rf_text f = negb (text_eqb (a_text a) (cd_text cd)).
 Print Assumptions C09_race_flags_exact_partial.
 
-(* the 'if' direction of race_overtaken for four of its five flags: text, parser settings, linter settings or severity
-   settings overtaken -> the last word of a document the client has open (in a language with a parser) is wrong.
-   Any number of commands / configuration changes / didChange / didOpen / didSave / didClose in flight, any documents. *)
-Theorem C09_race_flags_sound_partial :
+(* the 'if' direction of race_overtaken for four of its five flags, WITHOUT the start condition on the dictionaries:
+   text, parser settings, linter settings or severity settings overtaken -> the last word of a document the client has
+   open (in a language with a parser) is wrong.
+   Any number of commands / configuration changes / didChange / didOpen / didSave / didClose in flight, any documents.
+   (Phase 6 name: C09_race_flags_sound_partial; that name now states all five flags, below.) *)
+Theorem C09_race_flags4_sound_partial :
   forall w0 h u cs y cd, race_gen_start w0 u -> forallb okop h = true ->
   run cs (init h w0) = Some y -> quiescent y ->
   lookup u (w_open (y_world y)) = Some cd -> kind (cd_lang cd) <> KNone ->
@@ -840,14 +842,189 @@ Theorem C09_race_flags_sound_partial :
   rf_text f || rf_pcfg f || rf_lcfg f || rf_scfg f = true ->
   lastword (y_world y) u <> expected (y_world y) u.
 Proof. exact race_flags_sound. Qed.
-Check C09_race_flags_sound_partial :
+Check C09_race_flags4_sound_partial :
   forall w0 h u cs y cd, race_gen_start w0 u -> forallb okop h = true ->
   run cs (init h w0) = Some y -> quiescent y ->
   lookup u (w_open (y_world y)) = Some cd -> kind (cd_lang cd) <> KNone ->
   let f := race_shape w0 (y_world y) u (xtrace cs (init h w0)) in
   rf_text f || rf_pcfg f || rf_lcfg f || rf_scfg f = true ->
   lastword (y_world y) u <> expected (y_world y) u.
+Print Assumptions C09_race_flags4_sound_partial.
+
+(* Phase 7 (Proofs/C09RaceDict.v): the FIFTH flag.  `race_dict_start w0 u`: the entry doc_state holds for u at the start
+   (if any) has base_dict = dict and dictionaries not longer than the dictionary files (true when it is up to date with the
+   files, `dict_start_uptodate`).  If a dictionary file of u (user dictionary / its file dictionary) is CHANGED by an
+   add-word command after the handler of u's last effective critical section read it (no such critical section: at any
+   time), the last word of u is wrong - every history of the class, every schedule.  Invariant DInv (dinv_step): the
+   dictionary files only grow in length and a changing write makes its file strictly longer (dict_write_lock: the
+   holder's copy is the file); a handler that is past its dictionary read and before its critical section holds a
+   snapshot not longer than the file, strictly shorter once a changing write followed its read; u's entry carries the
+   snapshot of the handler of its last effective critical section, base_dict = dict. *)
+Theorem C09_race_dict_sound_partial :
+  forall w0 h u cs y cd, race_gen_start w0 u -> race_dict_start w0 u -> forallb okop h = true ->
+  run cs (init h w0) = Some y -> quiescent y ->
+  lookup u (w_open (y_world y)) = Some cd -> kind (cd_lang cd) <> KNone ->
+  rf_dict (race_shape w0 (y_world y) u (xtrace cs (init h w0))) = true ->
+  lastword (y_world y) u <> expected (y_world y) u.
+Proof. exact race_dict_sound. Qed.
+Check C09_race_dict_sound_partial :
+  forall w0 h u cs y cd, race_gen_start w0 u -> race_dict_start w0 u -> forallb okop h = true ->
+  run cs (init h w0) = Some y -> quiescent y ->
+  lookup u (w_open (y_world y)) = Some cd -> kind (cd_lang cd) <> KNone ->
+  rf_dict (race_shape w0 (y_world y) u (xtrace cs (init h w0))) = true ->
+  lastword (y_world y) u <> expected (y_world y) u.
+Print Assumptions C09_race_dict_sound_partial.
+
+(* the complete 'if' direction of the shape: race_overtaken (ANY of the five flags) -> the last word is wrong.
+   Partial: the 'only if' direction and source-code documents / didChangeWatchedFiles remain (explored family only). *)
+Theorem C09_race_flags_sound_partial :
+  forall w0 h u cs y cd, race_gen_start w0 u -> race_dict_start w0 u -> forallb okop h = true ->
+  run cs (init h w0) = Some y -> quiescent y ->
+  lookup u (w_open (y_world y)) = Some cd -> kind (cd_lang cd) <> KNone ->
+  race_overtaken w0 (y_world y) u (xtrace cs (init h w0)) = true ->
+  lastword (y_world y) u <> expected (y_world y) u.
+Proof. exact race_flags_sound5. Qed.
+Check C09_race_flags_sound_partial :
+  forall w0 h u cs y cd, race_gen_start w0 u -> race_dict_start w0 u -> forallb okop h = true ->
+  run cs (init h w0) = Some y -> quiescent y ->
+  lookup u (w_open (y_world y)) = Some cd -> kind (cd_lang cd) <> KNone ->
+  race_overtaken w0 (y_world y) u (xtrace cs (init h w0)) = true ->
+  lastword (y_world y) u <> expected (y_world y) u.
 Print Assumptions C09_race_flags_sound_partial.
+
+(* non-vacuity for the dictionary flag (NOT in the explored family's schedules by construction: instr granularity): a
+   didChange has read both dictionaries when HarperAddToUserDict (sent after it, naming another document) saves the user
+   dictionary; the didChange then runs its critical section and publishes (15 steps): flag `dictionary` alone, the last
+   word has the newest text but a user dictionary without word 5 *)
+Example C09_race_dict_nonvacuous :
+  race_gen_start race_wA uA /\ race_dict_start race_wA uA /\ forallb okop dict_example_h = true /\
+  exists y cd a, run dict_example_cs (init dict_example_h race_wA) = Some y /\ quiescent y /\
+    lookup uA (w_open (y_world y)) = Some cd /\ kind (cd_lang cd) <> KNone /\
+    lastword (y_world y) uA = PDiag a /\
+    race_shape race_wA (y_world y) uA (xtrace dict_example_cs (init dict_example_h race_wA)) = mkflags false true false false false /\
+    (a_text a, dv_user (a_dict a), w_udict (y_world y)) = (tx 1, [], [5]).
+Proof. exact race_dict_example. Qed.
+
+(* Phase 7 (Proofs/C09RaceOnlyIf.v): the 'ONLY IF' direction for the text flag alone.  `forallb (noclose u) h`: the history
+   has no didClose of u (any other message, any other document, as before); `race_text_start w0 u`: the entry doc_state
+   holds for u at the start (if any) has a language with a parser and a text.  Then an entry of u, once there, stays
+   (invariant EInv: no handler in flight / queued closes u; an update that finds u's entry never removes it), so the
+   side condition `doc_state publishes something for u` of C09_race_text_exact_partial is discharged:
+   text flag absent -> the last word of u carries the newest text.
+   Partial: the other four components have no 'only if' yet (dictionaries: needs `unchanged -> equal`, language and
+   ignore list), and histories WITH a didClose of u (re-opened documents) are outside. *)
+Theorem C09_race_text_onlyif_partial :
+  forall w0 h u cs y cd, race_gen_start w0 u -> race_text_start w0 u ->
+  forallb okop h = true -> forallb (noclose u) h = true ->
+  run cs (init h w0) = Some y -> quiescent y ->
+  lookup u (w_open (y_world y)) = Some cd ->
+  rf_text (race_shape w0 (y_world y) u (xtrace cs (init h w0))) = false ->
+  ptext (lastword (y_world y) u) = Some (cd_text cd).
+Proof. exact race_text_onlyif. Qed.
+Check C09_race_text_onlyif_partial :
+  forall w0 h u cs y cd, race_gen_start w0 u -> race_text_start w0 u ->
+  forallb okop h = true -> forallb (noclose u) h = true ->
+  run cs (init h w0) = Some y -> quiescent y ->
+  lookup u (w_open (y_world y)) = Some cd ->
+  rf_text (race_shape w0 (y_world y) u (xtrace cs (init h w0))) = false ->
+  ptext (lastword (y_world y) u) = Some (cd_text cd).
+Print Assumptions C09_race_text_onlyif_partial.
+
+(* both directions, text component: for such histories the last word has the newest text IFF the flag is absent *)
+Theorem C09_race_text_iff_partial :
+  forall w0 h u cs y cd, race_gen_start w0 u -> race_text_start w0 u ->
+  forallb okop h = true -> forallb (noclose u) h = true ->
+  run cs (init h w0) = Some y -> quiescent y ->
+  lookup u (w_open (y_world y)) = Some cd ->
+  (ptext (lastword (y_world y) u) = Some (cd_text cd) <->
+   rf_text (race_shape w0 (y_world y) u (xtrace cs (init h w0))) = false).
+Proof. exact race_text_iff. Qed.
+Check C09_race_text_iff_partial :
+  forall w0 h u cs y cd, race_gen_start w0 u -> race_text_start w0 u ->
+  forallb okop h = true -> forallb (noclose u) h = true ->
+  run cs (init h w0) = Some y -> quiescent y ->
+  lookup u (w_open (y_world y)) = Some cd ->
+  (ptext (lastword (y_world y) u) = Some (cd_text cd) <->
+   rf_text (race_shape w0 (y_world y) u (xtrace cs (init h w0))) = false).
+Print Assumptions C09_race_text_iff_partial.
+
+(* non-vacuity, both sides of the IFF, three / two handlers in flight: the dictionary race above has no text flag and the
+   last word has the newest text 1; the schedule of C09_race_gen_nonvacuous has the flag and the last word has text 0 *)
+Example C09_race_text_onlyif_nonvacuous :
+  race_gen_start race_wA uA /\ race_text_start race_wA uA /\
+  forallb okop dict_example_h = true /\ forallb (noclose uA) dict_example_h = true /\
+  forallb okop gen_example_h = true /\ forallb (noclose uA) gen_example_h = true /\
+  (exists y cd, run dict_example_cs (init dict_example_h race_wA) = Some y /\ quiescent y /\
+     lookup uA (w_open (y_world y)) = Some cd /\ cd_text cd = tx 1 /\
+     rf_text (race_shape race_wA (y_world y) uA (xtrace dict_example_cs (init dict_example_h race_wA))) = false /\
+     ptext (lastword (y_world y) uA) = Some (tx 1)) /\
+  (exists y cd, run gen_example_cs (init gen_example_h race_wA) = Some y /\ quiescent y /\
+     lookup uA (w_open (y_world y)) = Some cd /\ cd_text cd = tx 2 /\
+     rf_text (race_shape race_wA (y_world y) uA (xtrace gen_example_cs (init gen_example_h race_wA))) = true /\
+     ptext (lastword (y_world y) uA) = Some (tx 0)).
+Proof. exact race_text_onlyif_example. Qed.
+
+(* Phase 7 (Proofs/C09RaceDictEq.v): the dictionary flag is EXACT, both directions.  `race_dict_start_eq w0 u`: the entry
+   doc_state holds for u at the start (if any) is up to date with the dictionary files (base_dict = dict = the dictionary
+   the document was parsed with = (user dictionary file, u's file dictionary, no identifiers); decidable: dict_start_eqb).
+   When the last word of u is a diagnostics array: the flag `dictionary overtaken` is set IFF one of the two dictionaries of
+   its provenance is not what the dictionary files hold at the end.  The new half by EQUALITY (invariant QInv): a handler
+   past its dictionary read and before its critical section holds exactly the file as long as no changing save followed
+   its read; a step without a changing save leaves the files as they are.  With C09_race_flags_exact_partial: ALL FIVE
+   flags of race_shape are the comparisons of the corresponding components of the last word. *)
+Theorem C09_race_dict_exact_partial :
+  forall w0 h u cs y a, race_gen_start w0 u -> race_dict_start_eq w0 u -> forallb okop h = true ->
+  run cs (init h w0) = Some y -> quiescent y ->
+  lastword (y_world y) u = PDiag a ->
+  let cur := mkdict (w_udict (y_world y)) (fdict_of (y_world y) u) 0 in
+  rf_dict (race_shape w0 (y_world y) u (xtrace cs (init h w0))) = negb (dictv_eqb (a_dict a) cur && dictv_eqb (a_ddict a) cur).
+Proof. exact race_dict_exact. Qed.
+Check C09_race_dict_exact_partial :
+  forall w0 h u cs y a, race_gen_start w0 u -> race_dict_start_eq w0 u -> forallb okop h = true ->
+  run cs (init h w0) = Some y -> quiescent y ->
+  lastword (y_world y) u = PDiag a ->
+  let cur := mkdict (w_udict (y_world y)) (fdict_of (y_world y) u) 0 in
+  rf_dict (race_shape w0 (y_world y) u (xtrace cs (init h w0))) = negb (dictv_eqb (a_dict a) cur && dictv_eqb (a_ddict a) cur).
+Print Assumptions C09_race_dict_exact_partial.
+
+(* hence the shape is exact up to the two components it does not look at: for a plain-text / markdown document whose last
+   word is a diagnostics array, the last word is right IFF race_overtaken is absent AND the language and the ignore list of
+   its provenance are the client's.  Partial: language / ignore list (the ignore race, a didOpen with another language
+   overtaken) and `the last word is not []` are not yet read off the trace; source code / didChangeWatchedFiles outside. *)
+Theorem C09_race_shape_exact_partial :
+  forall w0 h u cs y a cd, race_gen_start w0 u -> race_dict_start_eq w0 u -> forallb okop h = true ->
+  run cs (init h w0) = Some y -> quiescent y ->
+  lastword (y_world y) u = PDiag a ->
+  lookup u (w_open (y_world y)) = Some cd -> kind (cd_lang cd) = KPlain ->
+  (lastword (y_world y) u = expected (y_world y) u <->
+   race_overtaken w0 (y_world y) u (xtrace cs (init h w0)) = false /\ a_lang a = cd_lang cd /\ a_ign a = cd_ign cd).
+Proof. exact race_shape_exact_mod. Qed.
+Check C09_race_shape_exact_partial :
+  forall w0 h u cs y a cd, race_gen_start w0 u -> race_dict_start_eq w0 u -> forallb okop h = true ->
+  run cs (init h w0) = Some y -> quiescent y ->
+  lastword (y_world y) u = PDiag a ->
+  lookup u (w_open (y_world y)) = Some cd -> kind (cd_lang cd) = KPlain ->
+  (lastword (y_world y) u = expected (y_world y) u <->
+   race_overtaken w0 (y_world y) u (xtrace cs (init h w0)) = false /\ a_lang a = cd_lang cd /\ a_ign a = cd_ign cd).
+Print Assumptions C09_race_shape_exact_partial.
+
+(* non-vacuity, both sides: the dictionary race of C09_race_dict_nonvacuous (flag set, both dictionaries of the last word
+   lack word 5, the last word is wrong) and the same two messages the other way round one after the other (15 steps: no
+   flag at all, dictionaries [5], the last word is right) *)
+Example C09_race_dict_exact_nonvacuous :
+  race_gen_start race_wA uA /\ race_dict_start_eq race_wA uA /\
+  forallb okop dict_example_h = true /\ forallb okop dict_example_h2 = true /\
+  (exists y cd a, run dict_example_cs (init dict_example_h race_wA) = Some y /\ quiescent y /\
+     lastword (y_world y) uA = PDiag a /\ lookup uA (w_open (y_world y)) = Some cd /\ kind (cd_lang cd) = KPlain /\
+     race_shape race_wA (y_world y) uA (xtrace dict_example_cs (init dict_example_h race_wA)) = mkflags false true false false false /\
+     (a_dict a, a_ddict a, w_udict (y_world y), fdict_of (y_world y) uA) = (mkdict [] [] 0, mkdict [] [] 0, [5], []) /\
+     freshb (y_world y) uA = false) /\
+  (exists y cd a, run dict_example_cs2 (init dict_example_h2 race_wA) = Some y /\ quiescent y /\
+     lastword (y_world y) uA = PDiag a /\ lookup uA (w_open (y_world y)) = Some cd /\ kind (cd_lang cd) = KPlain /\
+     race_overtaken race_wA (y_world y) uA (xtrace dict_example_cs2 (init dict_example_h2 race_wA)) = false /\
+     (a_dict a, a_ddict a, w_udict (y_world y)) = (mkdict [5] [] 0, mkdict [5] [] 0, [5]) /\
+     freshb (y_world y) uA = true).
+Proof. exact race_dict_exact_example. Qed.
 
 (* non-vacuity for the settings flags: a didChange whose configuration round-trip was answered before a
    didChangeConfiguration arrived goes on only after that handler has finished (23 steps): it writes the old settings
